@@ -2,8 +2,8 @@
 # builds the two stub archives next to this script
 set -e
 cd "$(dirname "$0")"
-cc -c -O1 vm_stub.c -o vm_stub.o
-cc -c -O1 compiler_stub.c -o compiler_stub.o
+cc -c -fPIC -O1 vm_stub.c -o vm_stub.o
+cc -c -fPIC -O1 compiler_stub.c -o compiler_stub.o
 rm -f libjuno_starknet_rs.a libjuno_starknet_compiler_rs.a
 ar rcs libjuno_starknet_rs.a vm_stub.o
 ar rcs libjuno_starknet_compiler_rs.a compiler_stub.o
